@@ -1,6 +1,766 @@
-//! C11 — stub (to be written; see /verif/harness/AUTHORING.md and DESIGN.md §3 C11)
-use vengine::Property;
+//! C11 — least-squares estimators return a minimiser of their documented objective.
+//!
+//! * `LinearRegression` (linfa-linear): residual orthogonal to every feature column and to the
+//!   constant column, no perturbation lowers the SSE, coefficients agree with an independent solve.
+//! * `ElasticNet` / `MultiTaskElasticNet` (linfa-elasticnet): the returned point is judged against
+//!   the documented objective itself (evaluated by the harness' own code): no candidate — exact
+//!   one-dimensional (block) minimisers, the exact intercept minimiser, random perturbations, an
+//!   independently computed reference solution — lowers it by more than the reported duality gap;
+//!   the gap is non-negative and below `tolerance * ||y_c||^2`; rows under the l1 threshold are
+//!   exactly zero (with a margin derived rigorously from the last sweep's coefficient changes).
+//!
+//! See `oracle.rs` for the objective and the reference code, `cases.rs` for the generators.
+
+pub mod cases;
+pub mod fit;
+pub mod oracle;
+
+use cases::{enet_strategy, ols_strategy, EnetCase, Flavor, OlsCase};
+use fit::{fit_enet, fit_ols, EnetCfg, EnetOut};
+use oracle::*;
+use vengine::gen::SplitMix;
+use vengine::{prop_sub, Obs, Property, Tier};
+
+// ------------------------------------------------------------------------------------------------
+// named tolerances (all of them are repeated in `assumptions`)
+
+/// iteration budget for fits whose stopping rule can fire (l1 part > 0)
+const MAX_ITER: u32 = 100_000;
+/// budgets of the two fits used to establish stationarity when the l1 part is zero
+const RIDGE_ITER: u32 = 20_000;
+/// budget of the f32 fits
+const F32_ITER: u32 = 20_000;
+/// float slack of objective comparisons, relative to `objective_scale`
+const SLACK_F64: f64 = 1e-9;
+const SLACK_F32: f64 = 2e-3;
+/// drift allowance of linfa's incrementally updated residual in the exact-zero rule (relative)
+const DRIFT_F64: f64 = 1e-9;
+/// a column counts as centred when |sum_i x_ij| <= CENTRED * sqrt(n) * ||x_j||
+const CENTRED: f64 = 1e-9;
+/// two-budget stationarity: scaled coefficient change allowed between the two fits
+const STATIONARY: f64 = 1e-12;
+/// OLS orthogonality: |x_j^T r| <= ORTH_EPS * eps * ||x_j|| * M
+const ORTH_EPS: f64 = 4000.0;
+/// OLS agreement with the reference solve: AGREE_EPS * eps * cond * M
+const AGREE_EPS: f64 = 1000.0;
+/// designs whose equilibrated Gram condition number exceeds this are not judged (OLS)
+const COND_MAX: f64 = 1e7;
+/// number of random perturbations per fit
+const N_PERT: usize = 200;
+
+const KNOWN_INTERCEPT_SIG: &str = "enet:intercept-not-jointly-optimal:nonzero-column-means:intercept=mean(y)";
+
+fn eps_of(f32_: bool) -> f64 {
+    if f32_ {
+        f32::EPSILON as f64
+    } else {
+        f64::EPSILON
+    }
+}
+
+// ------------------------------------------------------------------------------------------------
+// measured description of a design matrix
+
+struct XInfo {
+    norms: Vec<f64>,
+    means: Vec<f64>,
+    any_uncentred: bool,
+}
+
+fn describe_x(x: &Mat, n: usize, p: usize, obs: &mut Obs) -> XInfo {
+    let norms = col_norms(x, p);
+    let means = col_means(x, p);
+    let sq = (n as f64).sqrt();
+    let centred: Vec<bool> = (0..p).map(|j| (means[j] * n as f64).abs() <= CENTRED * sq * norms[j]).collect();
+    let any_uncentred = centred.iter().any(|c| !c);
+    obs.class_if(!any_uncentred, "x_all_columns_centred");
+    obs.class_if(any_uncentred, "x_some_column_uncentred");
+    let mut big = false;
+    let mut constant = false;
+    let mut zero = false;
+    for j in 0..p {
+        if norms[j] == 0.0 {
+            zero = true;
+            continue;
+        }
+        let cosine = (means[j] * sq).abs() / norms[j];
+        if x.iter().all(|r| r[j] == x[0][j]) {
+            constant = true;
+        } else if cosine > 0.99 {
+            big = true;
+        }
+    }
+    obs.class_if(big, "x_column_offset_100_scales");
+    obs.class_if(constant, "x_constant_nonzero_column");
+    obs.class_if(zero, "x_zero_column");
+    let nz: Vec<f64> = norms.iter().cloned().filter(|v| *v > 0.0).collect();
+    if let (Some(mx), Some(mn)) = (
+        nz.iter().cloned().reduce(f64::max),
+        nz.iter().cloned().reduce(f64::min),
+    ) {
+        obs.class_if(mx / mn >= 1e3, "x_badly_scaled_columns_ratio_ge_1e3");
+        obs.class_if(mx / mn >= 1e5, "x_badly_scaled_columns_ratio_ge_1e5");
+    }
+    // near-collinear pair (centred cosine)
+    let mut coll = false;
+    for a in 0..p {
+        for b in a + 1..p {
+            let (mut sab, mut saa, mut sbb) = (0.0, 0.0, 0.0);
+            for r in x.iter() {
+                let (u, v) = (r[a] - means[a], r[b] - means[b]);
+                sab += u * v;
+                saa += u * u;
+                sbb += v * v;
+            }
+            if saa > 0.0 && sbb > 0.0 && sab.abs() / (saa * sbb).sqrt() > 0.95 {
+                coll = true;
+            }
+        }
+    }
+    obs.class_if(coll, "x_near_collinear_pair");
+    obs.class_if(
+        x.iter().all(|r| r.iter().all(|v| v.fract() == 0.0 && v.abs() <= 4.0)),
+        "x_small_integer_lattice",
+    );
+    XInfo { norms, means, any_uncentred }
+}
+
+// ------------------------------------------------------------------------------------------------
+// elastic net
+
+fn enet_cfg(c: &EnetCase, tol: f64, max_iter: u32) -> EnetCfg {
+    EnetCfg { multi: c.multi, penalty: c.penalty, l1_ratio: c.l1_ratio, intercept: c.intercept, tol, max_iter }
+}
+
+fn run_enet(c: &EnetCase, n: usize, p: usize, t: usize, tol: f64, max_iter: u32) -> Result<EnetOut, String> {
+    let cfg = enet_cfg(c, tol, max_iter);
+    if c.f32 {
+        fit_enet::<f32>(&c.x, &c.y, n, p, t, &cfg)
+    } else {
+        fit_enet::<f64>(&c.x, &c.y, n, p, t, &cfg)
+    }
+}
+
+fn out_finite(o: &EnetOut) -> bool {
+    all_finite(&o.w) && o.b.iter().all(|v| v.is_finite()) && o.gap.is_finite() && all_finite(&o.pred)
+}
+
+/// largest scaled difference between two coefficient matrices (rows scaled by the column norm)
+fn scaled_diff(a: &Mat, b: &Mat, norms: &[f64]) -> (f64, f64) {
+    let mut d: f64 = 0.0;
+    let mut m: f64 = 0.0;
+    for j in 0..a.len() {
+        let mut dj = 0.0;
+        for c in 0..a[j].len() {
+            let e = a[j][c] - b[j][c];
+            dj += e * e;
+        }
+        d = d.max(dj.sqrt() * norms[j]);
+        m = m.max(row_norm(&a[j]) * norms[j]);
+    }
+    (d, m)
+}
+
+struct Judge<'a> {
+    pr: &'a Prob<'a>,
+    p0: f64,
+    s0: f64,
+    /// what the candidate may gain: max(reported gap, 0), or 0 when stationarity was established
+    allowance: f64,
+    slack_rel: f64,
+}
+
+impl<'a> Judge<'a> {
+    /// true when the candidate does NOT lower the objective by more than allowed
+    fn ok(&self, w2: &Mat, b2: &[f64]) -> (bool, f64) {
+        let p1 = objective(self.pr, w2, b2);
+        let gain = self.p0 - p1;
+        if !(gain > self.allowance + self.slack_rel * self.s0) {
+            return (true, gain);
+        }
+        let s1 = objective_scale(self.pr, w2, b2);
+        (!(gain > self.allowance + self.slack_rel * self.s0.max(s1)), gain)
+    }
+}
+
+fn check_enet(c: &EnetCase, obs: &mut Obs) {
+    let n = c.x.len();
+    let p = c.x.first().map_or(0, |r| r.len());
+    let t = c.y.first().map_or(0, |r| r.len());
+    if n < 3
+        || p == 0
+        || t == 0
+        || n <= p
+        || !shape_ok(&c.x, n, p)
+        || !shape_ok(&c.y, n, t)
+        || (!c.multi && t != 1)
+        || !all_finite(&c.x)
+        || !all_finite(&c.y)
+        || !(c.penalty >= 0.0)
+        || !(0.0..=1.0).contains(&c.l1_ratio)
+        || !(c.tol >= 0.0)
+    {
+        obs.skip("malformed_case");
+        return;
+    }
+    let nf = n as f64;
+    let xi = describe_x(&c.x, n, p, obs);
+    obs.class_if(c.multi, "estimator_multitask");
+    obs.class_if(!c.multi, "estimator_single_task");
+    obs.class_if(t == 1, "targets_1");
+    obs.class_if(t == 2, "targets_2");
+    obs.class_if(t == 3, "targets_3");
+    obs.class_if(c.f32, "f32");
+    obs.class_if(c.intercept, "intercept_on");
+    obs.class_if(!c.intercept, "intercept_off");
+    obs.class_if(c.penalty == 0.0, "penalty_0");
+    obs.class_if(c.penalty > 0.0 && c.penalty < 0.05, "penalty_1e-3");
+    obs.class_if(c.penalty >= 0.05 && c.penalty < 5.0, "penalty_0.1_or_1");
+    obs.class_if(c.penalty >= 5.0, "penalty_10");
+    obs.class_if(c.l1_ratio == 0.0, "l1_ratio_0_ridge");
+    obs.class_if(c.l1_ratio == 1.0, "l1_ratio_1_lasso");
+    obs.class_if(c.l1_ratio > 0.0 && c.l1_ratio < 1.0, "l1_ratio_mixed");
+    obs.class_if(c.tol <= 1e-11, "tol_1e-12");
+    obs.class_if(c.tol > 1e-11 && c.tol <= 1e-7, "tol_1e-8");
+    obs.class_if(c.tol > 1e-7, "tol_ge_1e-4");
+
+    let alpha = nf * c.penalty * c.l1_ratio;
+    let beta = nf * c.penalty * (1.0 - c.l1_ratio);
+    let pr = Prob { x: &c.x, y: &c.y, n, p, t, alpha, beta };
+    let slack_rel = if c.f32 { SLACK_F32 } else { SLACK_F64 };
+    let eps = eps_of(c.f32);
+    let l1_part = alpha > 0.0;
+    let budget = if c.f32 {
+        F32_ITER
+    } else if l1_part {
+        MAX_ITER
+    } else {
+        RIDGE_ITER
+    };
+
+    // ---- the fit
+    let out = match obs.call("elasticnet.fit", || run_enet(c, n, p, t, c.tol, budget)) {
+        None => return,
+        Some(Err(e)) => {
+            obs.fail("enet:fit-error", format!("fit returned an error on a valid regression problem: {e}"));
+            return;
+        }
+        Some(Ok(o)) => o,
+    };
+    if !shape_ok(&out.w, p, t) || out.b.len() != t || !shape_ok(&out.pred, n, t) {
+        obs.fail("enet:output-shape", "hyperplane / intercept / prediction have the wrong shape".to_string());
+        return;
+    }
+    if !obs.ensure(out_finite(&out), "enet:non-finite-output", || {
+        format!(
+            "non-finite model: hyperplane {:?}, intercept {:?}, gap {}, n_steps {}",
+            out.w, out.b, out.gap, out.n_steps
+        )
+    }) {
+        return;
+    }
+    let (w, b) = (&out.w, &out.b[..]);
+
+    // ---- predict = X w + b
+    for i in 0..n {
+        for cc in 0..t {
+            let mut s = b[cc];
+            let mut m = b[cc].abs();
+            for j in 0..p {
+                s += c.x[i][j] * w[j][cc];
+                m += (c.x[i][j] * w[j][cc]).abs();
+            }
+            if !obs.ensure((out.pred[i][cc] - s).abs() <= 64.0 * eps * m + 1e-300, "enet:predict-not-xw-plus-b", || {
+                format!("row {i} target {cc}: predict gives {}, X w + b = {}", out.pred[i][cc], s)
+            }) {
+                break;
+            }
+        }
+    }
+    if !c.intercept {
+        obs.ensure(b.iter().all(|v| *v == 0.0), "enet:intercept-nonzero-when-disabled", || {
+            format!("with_intercept(false) but intercept = {:?}", b)
+        });
+    }
+
+    // ---- what kind of point is it?
+    let zero_rows = w.iter().filter(|r| r.iter().all(|v| *v == 0.0)).count();
+    obs.class_if(zero_rows == p, "solution_all_zero");
+    obs.class_if(zero_rows > 0 && zero_rows < p, "solution_zero_and_nonzero_rows");
+    obs.class_if(zero_rows == 0, "solution_dense");
+    let uncentred_with_intercept = c.intercept && xi.any_uncentred;
+    obs.class_if(uncentred_with_intercept, "uncentred_x_with_intercept");
+    obs.nontrivial_if(uncentred_with_intercept || (zero_rows > 0 && zero_rows < p) || (c.multi && t >= 2));
+
+    // ---- has the iteration converged?
+    let reported = out.n_steps < budget;
+    let mut allowance = out.gap.max(0.0);
+    let p0 = objective(&pr, w, b);
+    let s0 = objective_scale(&pr, w, b);
+    let yc2: f64 = {
+        let mut s = 0.0;
+        for i in 0..n {
+            for cc in 0..t {
+                let v = c.y[i][cc] - b[cc];
+                s += v * v;
+            }
+        }
+        s
+    };
+
+    // the reported gap is a non-negative upper bound whatever the state of the iteration
+    obs.ensure(out.gap >= -slack_rel * s0, "enet:gap-negative", || {
+        format!("reported duality gap {} is negative beyond rounding (objective scale {})", out.gap, s0)
+    });
+
+    if reported {
+        obs.class("converged_reported_by_solver");
+        let factor = if c.f32 { 1.0 + 1e-4 } else { 1.0 + 1e-9 };
+        obs.ensure(out.gap <= c.tol * yc2 * factor + 1e-300, "enet:gap-above-tolerance", || {
+            format!(
+                "solver stopped after {} < {} sweeps with gap {} but tolerance * ||y - b||^2 = {}",
+                out.n_steps,
+                budget,
+                out.gap,
+                c.tol * yc2
+            )
+        });
+    } else if !l1_part && !c.f32 {
+        // l1 part zero: linfa's gap degenerates to the primal value, the stopping rule cannot fire.
+        // Convergence of the iteration is established by comparing two budgets instead.
+        let out2 = match obs.call("elasticnet.fit", || run_enet(c, n, p, t, c.tol, 2 * budget)) {
+            Some(Ok(o)) if shape_ok(&o.w, p, t) && o.b.len() == t && out_finite(&o) => o,
+            _ => {
+                obs.fail("enet:refit-differs", "second fit with a doubled budget failed".to_string());
+                return;
+            }
+        };
+        let (d, m) = scaled_diff(w, &out2.w, &xi.norms);
+        if d <= STATIONARY * m {
+            obs.class("converged_two_budget_stationary");
+            allowance = 0.0;
+        } else {
+            obs.skip("not_converged_ridge_not_stationary");
+            return;
+        }
+    } else {
+        // l1 part > 0 and the budget ran out. If the harness' own plain coordinate descent reaches a
+        // gap a thousand times below the requested one in <= 2000 sweeps, the budget of 100 000 was
+        // large enough and the solver had to stop.
+        if !c.f32 && c.tol >= 1e-8 && yc2 > 0.0 {
+            let (wr, sweeps, _) = ref_cd(&pr, b, 2000);
+            let g = dual_gap(&pr, &wr, b);
+            let sr = objective_scale(&pr, &wr, b);
+            if sweeps < 2000 && g.is_finite() && g + 1e-12 * sr < 1e-3 * c.tol * yc2 {
+                obs.fail(
+                    "enet:not-converged-within-budget",
+                    format!(
+                        "solver used all {} sweeps (gap {}) although plain coordinate descent reaches gap {} (tolerance*||y||^2 = {}) in {} sweeps",
+                        budget,
+                        out.gap,
+                        g,
+                        c.tol * yc2,
+                        sweeps
+                    ),
+                );
+                return;
+            }
+        }
+        obs.skip("not_converged_budget_exhausted");
+        return;
+    }
+
+    let judge = Judge { pr: &pr, p0, s0, allowance, slack_rel };
+    let r = residual(&pr, w, b);
+    let xjj: Vec<f64> = xi.norms.iter().map(|v| v * v).collect();
+
+    // ---- (1) exact one-dimensional (block) minimisers, b fixed
+    for j in 0..p {
+        let rj = rho(&pr, &r, w, j);
+        let new = block_minimiser(&pr, &rj, xjj[j]);
+        let mut w2 = w.clone();
+        w2[j] = new;
+        let (ok, gain) = judge.ok(&w2, b);
+        obs.ensure(ok, "enet:coordinate-minimiser-lowers-objective", || {
+            format!(
+                "replacing row {j} = {:?} by its exact minimiser {:?} lowers the objective by {gain} > gap {} (objective {p0})",
+                w[j], w2[j], out.gap
+            )
+        });
+    }
+
+    // ---- (2) random perturbations, b fixed
+    let mut rng = SplitMix(c.pert_seed);
+    let ynorm = yc2.sqrt();
+    let typical: Vec<f64> = (0..p)
+        .map(|j| if xi.norms[j] > 0.0 { ynorm / (xi.norms[j] * (p as f64).sqrt()) } else { 1.0 })
+        .collect();
+    let rms_y: Vec<f64> = (0..t).map(|cc| (c.y.iter().map(|row| row[cc] * row[cc]).sum::<f64>() / nf).sqrt()).collect();
+    let perturb = |rng: &mut SplitMix, joint: bool| -> (Mat, Vec<f64>) {
+        let s = 10f64.powi(-(rng.below(9) as i32));
+        let mut w2 = w.clone();
+        let mut b2 = b.to_vec();
+        let kind = rng.below(5);
+        let j0 = rng.below(p);
+        match kind {
+            1 => {
+                for cc in 0..t {
+                    w2[j0][cc] += s * rng.gauss() * (w[j0][cc].abs() + typical[j0]);
+                }
+            }
+            2 => {
+                // drop a non-zero row
+                if let Some(j) = (0..p).map(|k| (j0 + k) % p).find(|&j| w[j].iter().any(|v| *v != 0.0)) {
+                    w2[j] = vec![0.0; t];
+                }
+            }
+            3 => {
+                // activate a zero row
+                if let Some(j) = (0..p).map(|k| (j0 + k) % p).find(|&j| w[j].iter().all(|v| *v == 0.0)) {
+                    for cc in 0..t {
+                        w2[j][cc] = s * rng.gauss() * typical[j];
+                    }
+                }
+            }
+            _ => {
+                for j in 0..p {
+                    for cc in 0..t {
+                        w2[j][cc] += s * rng.gauss() * (w[j][cc].abs() + typical[j]);
+                    }
+                }
+            }
+        }
+        if joint && (kind == 4 || kind == 0) {
+            for cc in 0..t {
+                b2[cc] += s * rng.gauss() * (b[cc].abs() + rms_y[cc]);
+            }
+        }
+        (w2, b2)
+    };
+    for k in 0..N_PERT {
+        let (w2, _) = perturb(&mut rng, false);
+        let (ok, gain) = judge.ok(&w2, b);
+        if !obs.ensure(ok, "enet:perturbation-lowers-objective", || {
+            format!("perturbation #{k} of the coefficients lowers the objective by {gain} > gap {} (objective {p0}); perturbed coefficients {:?}", out.gap, w2)
+        }) {
+            break;
+        }
+    }
+
+    // ---- (3) independent reference solution of the w-block problem
+    let wref = if alpha == 0.0 { ref_direct(&pr, b) } else { None }.unwrap_or_else(|| ref_cd(&pr, b, 3000).0);
+    if all_finite(&wref) {
+        let (ok, gain) = judge.ok(&wref, b);
+        obs.ensure(ok, "enet:reference-solution-lower-objective", || {
+            format!(
+                "independent solution {:?} has an objective lower by {gain} than the returned {:?} (gap {}, objective {p0})",
+                wref, w, out.gap
+            )
+        });
+    }
+
+    // ---- (4) jointly in coefficients and intercept
+    if c.intercept {
+        let ybar: Vec<f64> = (0..t).map(|cc| c.y.iter().map(|row| row[cc]).sum::<f64>() / nf).collect();
+        let b_is_ymean = (0..t).all(|cc| (b[cc] - ybar[cc]).abs() <= 1e-12 * (ybar[cc].abs() + rms_y[cc]) + 1e-300);
+        // the defect recognised as known: features with non-zero column means and intercept = mean(y)
+        let sig: &str = if xi.any_uncentred && b_is_ymean {
+            KNOWN_INTERCEPT_SIG
+        } else {
+            "enet:intercept-not-jointly-optimal"
+        };
+        // exact minimiser over b: b + mean residual; the gain is n/2 * sum_c mean(r_c)^2
+        let mr: Vec<f64> = (0..t).map(|cc| r.iter().map(|row| row[cc]).sum::<f64>() / nf).collect();
+        let gain_b = 0.5 * nf * mr.iter().map(|v| v * v).sum::<f64>();
+        obs.ensure(!(gain_b > allowance + slack_rel * s0), sig, || {
+            format!(
+                "moving the intercept {:?} by the mean residual {:?} lowers the objective by {gain_b} > gap {} (objective {p0}); column means {:?}, mean(y) {:?}",
+                b, mr, out.gap, xi.means, ybar
+            )
+        });
+        for k in 0..N_PERT / 2 {
+            let (w2, b2) = perturb(&mut rng, true);
+            let (ok, gain) = judge.ok(&w2, &b2);
+            if !obs.ensure(ok, sig, || {
+                format!("joint perturbation #{k} (coefficients {:?}, intercept {:?}) lowers the objective by {gain} > gap {}", w2, b2, out.gap)
+            }) {
+                break;
+            }
+        }
+        // joint reference: eliminate the intercept by centring with the harness' own code
+        let xc: Mat = c.x.iter().map(|row| (0..p).map(|j| row[j] - xi.means[j]).collect()).collect();
+        let yc: Mat = c.y.iter().map(|row| (0..t).map(|cc| row[cc] - ybar[cc]).collect()).collect();
+        let prc = Prob { x: &xc, y: &yc, n, p, t, alpha, beta };
+        let zero_b = vec![0.0; t];
+        let wj = if alpha == 0.0 { ref_direct(&prc, &zero_b) } else { None }.unwrap_or_else(|| ref_cd(&prc, &zero_b, 3000).0);
+        if all_finite(&wj) {
+            let bj: Vec<f64> = (0..t).map(|cc| ybar[cc] - (0..p).map(|j| xi.means[j] * wj[j][cc]).sum::<f64>()).collect();
+            let (ok, gain) = judge.ok(&wj, &bj);
+            obs.ensure(ok, sig, || {
+                format!(
+                    "joint minimiser computed on centred features (coefficients {:?}, intercept {:?}) has an objective lower by {gain} than the returned (coefficients {:?}, intercept {:?}); gap {}, objective {p0}",
+                    wj, bj, w, b, out.gap
+                )
+            });
+        }
+    }
+
+    // ---- (5) rows under the l1 threshold are exactly zero (and zero rows are not above it)
+    if l1_part && !c.f32 && reported {
+        // the iterate before the last sweep: tolerance 0 disables the stopping rule, so a fit with
+        // budget n_steps - 1 returns exactly the previous iterate of the same deterministic iteration
+        let prev: Option<Mat> = if out.n_steps <= 1 {
+            Some(zeros(p, t))
+        } else {
+            match obs.call("elasticnet.fit", || run_enet(c, n, p, t, 0.0, out.n_steps - 1)) {
+                Some(Ok(o)) if o.n_steps == out.n_steps - 1 && shape_ok(&o.w, p, t) && all_finite(&o.w) => Some(o.w),
+                _ => None,
+            }
+        };
+        match prev {
+            None => obs.class("previous_iterate_unavailable"),
+            Some(wp) => {
+                let q = (2.0 * (s0 - penalty_value(&pr, w)).max(0.0)).sqrt();
+                for j in 0..p {
+                    let rj = rho(&pr, &r, w, j);
+                    let nr = row_norm(&rj);
+                    let mut bound = DRIFT_F64 * xi.norms[j] * q;
+                    for k in j + 1..p {
+                        let mut d2 = 0.0;
+                        for cc in 0..t {
+                            let e = w[k][cc] - wp[k][cc];
+                            d2 += e * e;
+                        }
+                        bound += col_dot(&c.x, j, k).abs() * d2.sqrt();
+                    }
+                    let is_zero = w[j].iter().all(|v| *v == 0.0);
+                    if nr + bound < alpha * (1.0 - 1e-9) {
+                        obs.class("row_strictly_under_threshold");
+                        obs.ensure(is_zero, "enet:below-threshold-not-exactly-zero", || {
+                            format!(
+                                "feature {j}: |x_j^T partial residual| = {nr} (+ margin {bound}) is under the l1 threshold {alpha} but the coefficient row is {:?}",
+                                w[j]
+                            )
+                        });
+                    }
+                    if is_zero && xjj[j] > 0.0 {
+                        obs.ensure(nr <= alpha * (1.0 + 1e-9) + bound, "enet:zero-row-above-threshold", || {
+                            format!("feature {j}: coefficient row is exactly zero but |x_j^T partial residual| = {nr} exceeds the l1 threshold {alpha} (margin {bound})")
+                        });
+                    }
+                }
+            }
+        }
+    }
+}
+
+// ------------------------------------------------------------------------------------------------
+// ordinary least squares
+
+fn check_ols(c: &OlsCase, obs: &mut Obs) {
+    let n = c.x.len();
+    let p = c.x.first().map_or(0, |r| r.len());
+    if n < 3 || p == 0 || n <= p + 1 || !shape_ok(&c.x, n, p) || c.y.len() != n || !all_finite(&c.x) || c.y.iter().any(|v| !v.is_finite()) {
+        obs.skip("malformed_case");
+        return;
+    }
+    let nf = n as f64;
+    let xi = describe_x(&c.x, n, p, obs);
+    obs.class_if(c.f32, "f32");
+    obs.class_if(!c.f32, "f64");
+    obs.class_if(c.intercept, "intercept_on");
+    obs.class_if(!c.intercept, "intercept_off");
+    let eps = eps_of(c.f32);
+
+    // conditioning of the (augmented) design, columns scaled to unit length
+    let cols = if c.intercept { p + 1 } else { p };
+    let aug: Mat = c
+        .x
+        .iter()
+        .map(|row| {
+            let mut v = row.clone();
+            if c.intercept {
+                v.push(1.0);
+            }
+            v
+        })
+        .collect();
+    let cond = equilibrated_gram_cond(&aug, cols);
+    if !(cond <= COND_MAX) {
+        obs.skip("design_not_full_rank_or_cond_above_1e7");
+        return;
+    }
+    obs.class_if(cond > 1e3, "cond_above_1e3");
+    let unc = c.intercept && xi.any_uncentred;
+    obs.class_if(unc, "uncentred_x_with_intercept");
+    obs.nontrivial_if(unc);
+
+    let fitted = obs.call("linear_regression.fit", || {
+        if c.f32 {
+            fit_ols::<f32>(&c.x, &c.y, n, p, c.intercept)
+        } else {
+            fit_ols::<f64>(&c.x, &c.y, n, p, c.intercept)
+        }
+    });
+    let out = match fitted {
+        None => return,
+        Some(Err(e)) => {
+            obs.fail("ols:fit-error", format!("fit failed on a full-column-rank design (cond {cond}): {e}"));
+            return;
+        }
+        Some(Ok(o)) => o,
+    };
+    if out.w.len() != p || out.pred.len() != n {
+        obs.fail("ols:output-shape", "params / prediction have the wrong length".to_string());
+        return;
+    }
+    if !obs.ensure(
+        out.w.iter().all(|v| v.is_finite()) && out.b.is_finite() && out.pred.iter().all(|v| v.is_finite()),
+        "ols:non-finite-output",
+        || format!("params {:?}, intercept {}", out.w, out.b),
+    ) {
+        return;
+    }
+    if !c.intercept {
+        obs.ensure(out.b == 0.0, "ols:intercept-nonzero-when-disabled", || format!("intercept = {}", out.b));
+    }
+    let (w, b) = (&out.w, out.b);
+
+    // predict
+    for i in 0..n {
+        let mut s = b;
+        let mut m = b.abs();
+        for j in 0..p {
+            s += c.x[i][j] * w[j];
+            m += (c.x[i][j] * w[j]).abs();
+        }
+        if !obs.ensure((out.pred[i] - s).abs() <= 64.0 * eps * m + 1e-300, "ols:predict-not-xw-plus-b", || {
+            format!("row {i}: predict gives {}, X w + b = {}", out.pred[i], s)
+        }) {
+            break;
+        }
+    }
+
+    // residual and magnitude scale M = ||y|| + sum_k ||x_k|| |w_k| + sqrt(n) |b|
+    let sse = |w: &[f64], b: f64| -> (f64, Vec<f64>) {
+        let mut r = vec![0.0; n];
+        let mut s = 0.0;
+        for i in 0..n {
+            let mut v = c.y[i] - b;
+            for j in 0..p {
+                v -= c.x[i][j] * w[j];
+            }
+            r[i] = v;
+            s += v * v;
+        }
+        (s, r)
+    };
+    let (sse0, r) = sse(w, b);
+    let ynorm = c.y.iter().map(|v| v * v).sum::<f64>().sqrt();
+    let m_scale = ynorm + (0..p).map(|j| xi.norms[j] * w[j].abs()).sum::<f64>() + nf.sqrt() * b.abs();
+    let tau = ORTH_EPS * eps;
+    for j in 0..p {
+        let d: f64 = (0..n).map(|i| c.x[i][j] * r[i]).sum();
+        obs.ensure(d.abs() <= tau * xi.norms[j] * m_scale, "ols:residual-not-orthogonal-to-feature", || {
+            format!("x_{j}^T r = {d}, allowed {} (||x_j|| = {}, scale {m_scale}); params {:?}, intercept {b}", tau * xi.norms[j] * m_scale, xi.norms[j], w)
+        });
+    }
+    if c.intercept {
+        let d: f64 = r.iter().sum();
+        obs.ensure(d.abs() <= tau * nf.sqrt() * m_scale, "ols:residual-not-orthogonal-to-constant", || {
+            format!("1^T r = {d}, allowed {}; params {:?}, intercept {b}", tau * nf.sqrt() * m_scale, w)
+        });
+    }
+
+    // no perturbation lowers the SSE beyond float slack
+    let slack = 1e4 * eps * m_scale * m_scale;
+    let mut rng = SplitMix(c.pert_seed);
+    let typical: Vec<f64> = (0..p).map(|j| ynorm / (xi.norms[j] * (p as f64).sqrt())).collect();
+    for k in 0..N_PERT {
+        let s = 10f64.powi(-(rng.below(9) as i32));
+        let mut w2 = w.clone();
+        let mut b2 = b;
+        let kind = rng.below(4);
+        if kind == 0 {
+            let j = rng.below(p);
+            w2[j] += s * rng.gauss() * (w[j].abs() + typical[j]);
+        } else {
+            for j in 0..p {
+                w2[j] += s * rng.gauss() * (w[j].abs() + typical[j]);
+            }
+        }
+        if c.intercept && kind >= 2 {
+            b2 += s * rng.gauss() * (b.abs() + ynorm / nf.sqrt());
+        }
+        let (s1, _) = sse(&w2, b2);
+        if !obs.ensure(!(sse0 - s1 > slack), "ols:perturbation-lowers-sse", || {
+            format!("perturbation #{k} (params {:?}, intercept {b2}) has SSE {s1} < {sse0} of the returned (params {:?}, intercept {b})", w2, w)
+        }) {
+            break;
+        }
+    }
+
+    // agreement with an independent solve: centred (if intercept), unit-length columns, normal
+    // equations by Gaussian elimination with partial pivoting
+    let means: Vec<f64> = if c.intercept { xi.means.clone() } else { vec![0.0; p] };
+    let ybar = if c.intercept { c.y.iter().sum::<f64>() / nf } else { 0.0 };
+    let xc: Mat = c.x.iter().map(|row| (0..p).map(|j| row[j] - means[j]).collect()).collect();
+    let cn = col_norms(&xc, p);
+    if cn.iter().all(|v| *v > 0.0) {
+        let mut a = zeros(p, p);
+        for j in 0..p {
+            for k in 0..p {
+                a[j][k] = col_dot(&xc, j, k) / (cn[j] * cn[k]);
+            }
+        }
+        let rhs: Vec<f64> = (0..p).map(|j| (0..n).map(|i| xc[i][j] * (c.y[i] - ybar)).sum::<f64>() / cn[j]).collect();
+        if let Some(z) = vengine::num::solve(&a, &rhs) {
+            let wref: Vec<f64> = (0..p).map(|j| z[j] / cn[j]).collect();
+            let bref = ybar - (0..p).map(|j| means[j] * wref[j]).sum::<f64>();
+            let tol = AGREE_EPS * eps * cond * m_scale;
+            for j in 0..p {
+                obs.ensure((w[j] - wref[j]).abs() * xi.norms[j] <= tol, "ols:coefficients-differ-from-reference", || {
+                    format!("coefficient {j}: linfa {}, reference {} (scaled difference {}, allowed {tol}, cond {cond})", w[j], wref[j], (w[j] - wref[j]).abs() * xi.norms[j])
+                });
+            }
+            if c.intercept {
+                obs.ensure((b - bref).abs() * nf.sqrt() <= tol, "ols:intercept-differs-from-reference", || {
+                    format!("intercept: linfa {b}, reference {bref} (allowed {}, cond {cond})", tol / nf.sqrt())
+                });
+            }
+        }
+    }
+}
+
+// ------------------------------------------------------------------------------------------------
 
 pub fn property() -> Property {
-    Property { id: "C11", rule: "", assumptions: vec![], subs: vec![] }
+    Property {
+        id: "C11",
+        rule: "cases = finished (X, y) matrices + estimator configuration. X = (G + k) diag(scale): G gaussian or small-integer lattice, n 6..=60, p 1..=6, n >= p+2, \
+               scale_j = 10^(e/2) with e in -6..=6, offset k_j in {exactly centred, raw, +-1, +-100} column scales (at most one +-100), optional constant column (zero or non-zero) and \
+               near-collinear pair (elastic net; the pair only with a positive ridge part); y = X w* + b* + sigma noise with row-sparse w*, 1..=3 target columns for the multi-task estimator; \
+               penalty in {0,1e-3,0.1,1,10}, l1_ratio in {0,0.3,0.5,1}, intercept on/off, tolerance in {1e-4,1e-8,1e-12} (f32: {1e-3,1e-4}), max_iterations 100000. \
+               Non-trivial = judged (converged) case with un-centred X and intercept, or >= 1 exactly-zero and >= 1 non-zero coefficient row, or multi-task with >= 2 target columns; \
+               for OLS: un-centred X with intercept. distinct = distinct canonical JSON of the case",
+        assumptions: vec![
+            "the objective is evaluated by the harness as P(W,b) = 1/2||Y-1b^T-XW||_F^2 + n*penalty*(l1_ratio*sum_j||W_j||_2 + (1-l1_ratio)/2||W||_F^2), i.e. n times the documented objective; the reported duality gap is on the same scale".into(),
+            format!("objective comparisons carry a float slack of {SLACK_F64:e} (f64) / {SLACK_F32:e} (f32) times the cancellation-free magnitude of the objective"),
+            format!("elastic-net fits are judged only when the solver reports convergence (n_steps < max_iterations = {MAX_ITER}; f32: {F32_ITER}); other fits are counted as skipped"),
+            format!("when n*penalty*l1_ratio = 0 linfa's duality gap equals the primal value and its stopping rule cannot fire (observation, not judged as a violation: the gap is still an upper bound); such fits are judged when two fits with budgets {RIDGE_ITER} and {} agree to {STATIONARY:e} (scaled by column norms), and then suboptimality must be within float slack", 2 * RIDGE_ITER),
+            "a fit that exhausts 100000 sweeps is a violation only when tolerance >= 1e-8 and the harness' plain coordinate descent reaches a duality gap below 1e-3*tolerance*||y||^2 in fewer than 2000 sweeps".into(),
+            format!("a column counts as centred when |sum_i x_ij| <= {CENTRED:e}*sqrt(n)*||x_j||; joint optimality in (w,b) is enforced for all designs, the failures on designs with a non-centred column and intercept == mean(y) carry the known-finding signature"),
+            format!("exact-zero rule: row j must be exactly zero when ||x_j^T(partial residual)|| + margin < n*penalty*l1_ratio*(1-1e-9); margin = sum_{{k>j}} |x_j^T x_k| * ||W_k - W_k(previous sweep)|| + {DRIFT_F64:e}*||x_j||*(cancellation-free residual norm); the previous sweep's iterate is obtained from linfa itself with tolerance 0 and max_iterations = n_steps-1; f64 only"),
+            format!("OLS: |x_j^T r| <= {ORTH_EPS}*eps*||x_j||*M and |1^T r| <= {ORTH_EPS}*eps*sqrt(n)*M with M = ||y|| + sum_k ||x_k|| |w_k| + sqrt(n)|b|; SSE slack 1e4*eps*M^2; agreement with the reference solve within {AGREE_EPS}*eps*cond*M where cond is the condition number of the unit-column Gram matrix of [X 1]; designs with cond > {COND_MAX:e} are not judged"),
+            "predict must equal X w + b within 64*eps*(|b| + sum_j |x_ij w_j|)".into(),
+            "f32 cases are mild (scales 0.1..10, offsets <= 1 scale, no collinear pair); for f32 the exact-zero rule, the two-budget ridge rule and the budget rule are not applied".into(),
+            "trusted base: ndarray, the harness' own Gaussian elimination / Jacobi eigen-solver / coordinate descent (used only to propose candidate points, whose objective is evaluated from the definition)".into(),
+        ],
+        subs: vec![
+            prop_sub("elasticnet", 600, 16000, |_t: Tier| enet_strategy(Flavor::Enet), check_enet).chunks(16),
+            prop_sub("multitask", 400, 11000, |_t: Tier| enet_strategy(Flavor::Multi), check_enet).chunks(16),
+            prop_sub("ols", 400, 10000, |_t: Tier| ols_strategy(), check_ols),
+            prop_sub("elasticnet_f32", 100, 3000, |_t: Tier| enet_strategy(Flavor::F32), check_enet),
+        ],
+    }
 }
